@@ -213,6 +213,16 @@ impl RustDocument {
             return Some(rust_node.clone());
         }
 
+        // the document at hand declares components of its own target namespace only: a reference
+        // into another namespace that was not found among the components read so far is dangling
+        // (searching this document for it would bind it to a component of the wrong namespace, and
+        // nothing found that way could ever be cached under the namespace asked for)
+        if let (Some(wanted), Some(own)) = (namespace, self.current_target_namespace.as_deref()) {
+            if wanted != own {
+                return None;
+            }
+        }
+
         if self.forward_lookup_depth >= MAX_FORWARD_LOOKUP_DEPTH {
             return None;
         }
